@@ -74,6 +74,11 @@ CLAIMED = {
          "step reports holding exactly the scenario's output up to that step, root logger handlers/level around every scenario; Captured "
          "add/report kernel", "DESIGN.md 4/C18",
          "symbolic execution of real code + z3 (capture switches/outcomes/fault position symbolic; per-path stream observations)"),
+ "C15": ("real runs with two recording formatters around a symbolically chosen line-up of built-in formatters (json, plain, progress*, "
+         "pretty): event-stream grammar, identical streams, JSON validity and equality with the model after the run (features, scenarios, "
+         "steps, statuses attached to their own element, read-back through JsonParser), plain/progress2 one entry per processed step; "
+         "outcomes, show_skipped, dry-run, --stop, selection and a raising feature cleanup symbolic", "DESIGN.md 4/C15",
+         "symbolic execution of real code + z3 (path space by solver, per-path report comparison)"),
 }
 NA_REASON = "check not built yet in this round (planned, see DESIGN.md section 4)"
 checks = []
